@@ -8,6 +8,7 @@
    honouring context cancellation) is sampled on virtual-time histories: PARTIAL. *)
 From Coq Require Import String List Bool Arith.
 From LNC Require Import TablesGen Tables.
+From LNC Require MailboxTables.
 Import ListNotations.
 
 Theorem c12_every_blocking_select_is_woken_by_close : uncovered_selects = [].
@@ -23,6 +24,19 @@ Print Assumptions c12_no_unwakeable_channel_operation.
 Example c12_bare_detector_detects :
   existsb (bare_eqb ("GoBackNConn.receivePacketsForever", "g.recvDataChan<-")) allowed_bare_ops = false /\
   Nat.leb 1 (List.length bare_chanop_table) = true.
+Proof. vm_compute. split; reflexivity. Qed.
+
+(* the same two checks over mailbox/*.go (ClientConn / ServerConn with their retry loops, Client / Server, Listener):
+   every blocking select has a case on a channel its shutdown closes, and the only channel operations outside a
+   select are the listed ones (Dial waiting for the previous connection's Done(), the listener's semaphore) *)
+Theorem c12_mailbox_blocking_operations_are_woken :
+  MailboxTables.uncovered_selects = [] /\ MailboxTables.unexpected_bare_ops = [].
+Proof. vm_compute. split; reflexivity. Qed.
+Print Assumptions c12_mailbox_blocking_operations_are_woken.
+
+Example c12_mailbox_table_nontrivial :
+  Nat.leb 10 (List.length MailboxTablesGen.select_table) = true /\
+  existsb (fun r => String.eqb (fst (fst r)) "Server.Accept" && negb (snd (fst r))) MailboxTablesGen.select_table = true.
 Proof. vm_compute. split; reflexivity. Qed.
 
 (* the statement is not vacuous: the table is non-trivial and contains blocking selects *)
